@@ -22,6 +22,8 @@ structure Obs where
   locksFree : List Bool
   levels : List (List Int)
   queues : List Int
+  /-- is a simulation still visible to the thread after `run()` returned? -/
+  visible : Bool := false
   deriving Inhabited
 
 def parseRat (s : String) : Rat :=
@@ -53,7 +55,7 @@ def parseObs (line : String) : Option Obs :=
     some { events := events, crash := crash, final := parseRat final, unfinished := parseInts unf,
            locksFree := (parseInts (get "locks")).map (· == 1),
            levels := ((get "levels").splitOn ";").filter (· ≠ "") |>.map parseInts,
-           queues := parseInts (get "queues") }
+           queues := parseInts (get "queues"), visible := get "visible" == "1" }
   | _ => none
 
 /-- rational carried in two consecutive integer arguments -/
